@@ -131,3 +131,572 @@ Print Assumptions rotation_failure_Inv.
 Print Assumptions dump_failure_keeps_records.
 Print Assumptions close_fsync_failure_keeps_blob.
 Print Assumptions rotation_failure_keeps_going.
+
+(* ================= one failed file operation inside a client call (Fault.v: fault_outcomes) =================
+
+   Results (s: BlobsOk K s, s_open s = true; s' any fault outcome of the public operation o):
+     fault_outcomes_are_cancel_outcomes   s' is a cancel outcome of o, possibly followed by the request for the
+                                          deferred index dump (a partially failed delete that marked some blob);
+                                          without "possibly followed" for every o that is not a delete, and for
+                                          every outcome in which the call returned an error
+     fault_other_keys (A), fault_no_harm (B), fault_later_ops (C), fault_then_write_acknowledged
+     fault_error_leaves_no_trace          STRONGER than cancellation: a call that returned an error left the log
+                                          and EVERY read (of its own key too) as they were
+     failed_delete_markers/_log/_read     a partially failed delete: blob by blob
+     fault_keeps_BlobsOk / fault_keeps_Inv  STRONGER than cancellation: the whole invariant survives            *)
+Require Import Pearl.Storage.IndexProofs Pearl.Storage.ReadAllProofs Pearl.Storage.NoHarmProofs
+               Pearl.Storage.WorkerProofs Pearl.Storage.Cancel Pearl.Storage.CancelProofs.
+
+(* s' is s1, or s1 with the deferred index dump requested *)
+Definition upto_dump_request (s1 s' : storage) : Prop := s' = s1 \/ s' = request_dump s1.
+
+Lemma safe_request_dump P s : safe P s (request_dump s).
+Proof.
+  split; [intros k _; apply keeps_request_dump|]. split; [apply good_request_dump|].
+  split; [apply aim_request_dump|]. split; [apply alive_request_dump|]. split; [|apply open_request_dump].
+  unfold request_dump. destruct (s_alive s); [|auto]. apply IdsOk_same; reflexivity.
+Qed.
+
+Lemma safe_upto_dump P s s1 s' : safe P s s1 -> upto_dump_request s1 s' -> safe P s s'.
+Proof. intros H [-> | ->]; [exact H|]. apply (safe_trans _ _ _ _ H), safe_request_dump. Qed.
+
+Section FaultOutcomes.
+Variable K : N.
+Variable cfg : config.
+
+(* ---------- the loop over the closed blobs ---------- *)
+Lemma faulty_slots l mk : forall fails,
+  Forall2 (slot_stage K mk) l (fst (delete_in_closed_faulty K l mk fails)).
+Proof.
+  induction l as [|[b|] l IH]; intros fails; cbn [delete_in_closed_faulty]; [constructor| |].
+  - specialize (IH (tl fails)). destruct (delete_in_closed_faulty K l mk (tl fails)) as [r' n]. cbn [fst] in IH.
+    destruct (delete_applies b mk true) eqn:A.
+    + destruct (hd false fails); cbn [fst]; (constructor; [|exact IH]).
+      * apply ss_stage; [exact A|apply ds_loaded].
+      * apply ss_stage; [exact A|apply ds_done].
+    + cbn [fst]. constructor; [apply ss_skip, A|exact IH].
+  - specialize (IH (tl fails)). destruct (delete_in_closed_faulty K l mk (tl fails)) as [r' n]. cbn [fst] in *.
+    constructor; [constructor|exact IH].
+Qed.
+
+(* blob by blob: marked and indexed, or untouched up to the place of its index *)
+Definition marked_or_loaded (mk : rec) (b b' : blob) : Prop :=
+  b' = fst (fst (blob_delete K b mk true)) \/ (delete_applies b mk true = true /\ b' = blob_load_index K b).
+
+Lemma faulty_slots_exact l mk : forall fails,
+  Forall2 (orel (marked_or_loaded mk)) l (fst (delete_in_closed_faulty K l mk fails)).
+Proof.
+  induction l as [|[b|] l IH]; intros fails; cbn [delete_in_closed_faulty]; [constructor| |].
+  - specialize (IH (tl fails)). destruct (delete_in_closed_faulty K l mk (tl fails)) as [r' n]. cbn [fst] in IH.
+    pose proof (blob_delete_stage K b mk true) as HS.
+    destruct (delete_applies b mk true) eqn:A.
+    + destruct (hd false fails); cbn [fst]; (constructor; [constructor|exact IH]).
+      * right. split; [exact A|reflexivity].
+      * left. symmetry. exact HS.
+    + cbn [fst]. constructor; [constructor; left; symmetry; exact HS|exact IH].
+  - specialize (IH (tl fails)). destruct (delete_in_closed_faulty K l mk (tl fails)) as [r' n]. cbn [fst] in *.
+    constructor; [constructor|exact IH].
+Qed.
+
+Lemma delete_faulty_blobs_partial s mk oip fails : delete_partial K s mk oip (delete_faulty_blobs K s mk oip fails).
+Proof. apply dp_closed, faulty_slots. Qed.
+
+Lemma delete_faulty_upto s mk oip fails :
+  upto_dump_request (delete_faulty_blobs K s mk oip fails) (delete_faulty K s mk oip fails).
+Proof. unfold delete_faulty. destruct (0 <? delete_faulty_marked K s mk oip fails); [right|left]; reflexivity. Qed.
+
+(* ---------- TASK 2: every fault outcome is a cancel outcome ---------- *)
+Lemma read_op_public o : read_op o = true -> public_op o = true.
+Proof. destruct o; intros H; try discriminate H; reflexivity. Qed.
+
+Lemma fault_outcomes_public s o s' : fault_outcomes K cfg s o s' -> public_op o = true.
+Proof.
+  intros [H|H]; destruct H; try reflexivity; try assumption. apply read_op_public. assumption.
+Qed.
+
+(* a call that returned an error stopped where a dropped future stops *)
+Theorem fault_error_is_cancel_outcome s o s' : fault_error K s o s' -> cancel_outcomes K cfg s o s'.
+Proof.
+  intros H. destruct H as [k ts meta msize dlen dseed Ho Hn|k ts meta msize dlen dseed Ho
+                          |k ts meta msize oip Ho Hoip Hn|k ts meta msize oip Ho| | |Ho Hn|Ho Hn|ro Hr].
+  - split; [reflexivity|]. right. right. split; [exact Ho|]. apply wp_create_dropped, Hn.
+  - split; [reflexivity|]. right. right. split; [exact Ho|]. apply wp_created.
+  - split; [reflexivity|]. right. right. split; [exact Ho|]. apply dp_create_dropped; assumption.
+  - split; [reflexivity|]. right. right. split; [exact Ho|]. apply dp_started.
+  - split; [reflexivity|]. left. reflexivity.
+  - split; [reflexivity|]. left. reflexivity.
+  - split; [reflexivity|]. right. right. split; [exact Ho|]. apply rp_loaded, Hn.
+  - split; [reflexivity|]. right. right. split; [exact Ho|]. apply cp_create_dropped, Hn.
+  - split; [apply read_op_public, Hr|]. left. reflexivity.
+Qed.
+
+Theorem fault_logged_is_cancel_outcome s o s' :
+  fault_logged K cfg s o s' -> exists s1, cancel_outcomes K cfg s o s1 /\ upto_dump_request s1 s'.
+Proof.
+  intros H. destruct H as [o Hp|k ts meta msize oip fails Ho].
+  - exists (fst (step K cfg s o)). split; [|left; reflexivity]. split; [exact Hp|]. right. left. reflexivity.
+  - exists (delete_faulty_blobs K s (mk_rec k ts true meta msize 0 0) oip fails). split; [|apply delete_faulty_upto].
+    split; [reflexivity|]. right. right. split; [exact Ho|]. apply delete_faulty_blobs_partial.
+Qed.
+
+Theorem fault_outcomes_are_cancel_outcomes s o s' :
+  fault_outcomes K cfg s o s' -> exists s1, cancel_outcomes K cfg s o s1 /\ upto_dump_request s1 s'.
+Proof.
+  intros [H|H]; [|apply fault_logged_is_cancel_outcome, H].
+  exists s'. split; [apply fault_error_is_cancel_outcome, H|left; reflexivity].
+Qed.
+
+Definition is_delete (o : op) : bool := match o with ODelete _ _ _ _ _ => true | _ => false end.
+
+(* literally a cancel outcome, for every operation but the delete *)
+Theorem fault_outcomes_are_cancel_outcomes_strict s o s' :
+  is_delete o = false -> fault_outcomes K cfg s o s' -> cancel_outcomes K cfg s o s'.
+Proof.
+  intros Hd [H|H]; [apply fault_error_is_cancel_outcome, H|].
+  destruct H as [o Hp|k ts meta msize oip fails Ho]; [|discriminate Hd].
+  split; [exact Hp|]. right. left. reflexivity.
+Qed.
+
+(* ... and for the delete when no closed blob was marked (no dump request) *)
+Theorem failed_delete_is_cancel_outcome s k ts meta msize oip fails :
+  s_open s = true -> delete_faulty_marked K s (mk_rec k ts true meta msize 0 0) oip fails = 0 ->
+  cancel_outcomes K cfg s (ODelete k ts meta msize oip) (delete_faulty K s (mk_rec k ts true meta msize 0 0) oip fails).
+Proof.
+  intros Ho Hz. unfold delete_faulty. rewrite Hz. cbn [N.ltb N.compare].
+  split; [reflexivity|]. right. right. split; [exact Ho|]. apply delete_faulty_blobs_partial.
+Qed.
+
+(* ---------- (A) (B) (C) ---------- *)
+Theorem fault_safe s o s' :
+  BlobsOk K s -> s_open s = true -> fault_outcomes K cfg s o s' -> safe (fun k => op_key o <> Some k) s s'.
+Proof.
+  intros HB Ho H. destruct (fault_outcomes_are_cancel_outcomes s o s' H) as (s1 & Hc & Hu).
+  apply (safe_upto_dump _ s s1 s'); [apply (cancel_safe K cfg); assumption|exact Hu].
+Qed.
+
+(* (A) no other key is affected *)
+Theorem fault_other_keys s o s' k :
+  BlobsOk K s -> s_open s = true -> fault_outcomes K cfg s o s' -> op_key o <> Some k ->
+  of_key k (abs s') = of_key k (abs s) /\
+  forall meta, get_latest_entry s' k meta = get_latest_entry s k meta.
+Proof. intros HB Ho H Hk. apply (proj1 (fault_safe s o s' HB Ho H) k Hk). Qed.
+
+(* (B) nothing stored is harmed *)
+Theorem fault_no_harm s o s' :
+  BlobsOk K s -> s_open s = true -> fault_outcomes K cfg s o s' -> good s s'.
+Proof. intros HB Ho H. apply (fault_safe s o s' HB Ho H). Qed.
+
+(* (C) later operations work *)
+Theorem fault_later_ops s o s' :
+  BlobsOk K s -> s_open s = true -> fault_outcomes K cfg s o s' ->
+  (ActiveInMemory s -> ActiveInMemory s') /\ s_alive s' = s_alive s /\ (IdsOk s -> IdsOk s') /\ s_open s' = true.
+Proof.
+  intros HB Ho H. destruct (fault_safe s o s' HB Ho H) as (_ & _ & C & D & E & F).
+  split; [exact C|]. split; [exact D|]. split; [exact E|congruence].
+Qed.
+
+Theorem fault_then_no_index_error s o s' o2 :
+  BlobsOk K s -> ActiveInMemory s -> s_open s = true -> fault_outcomes K cfg s o s' ->
+  snd (step K cfg s' o2) <> RErr EIndex.
+Proof. intros HB HA Ho H. apply step_no_index_error. apply (fault_later_ops s o s' HB Ho H), HA. Qed.
+
+(* once the fault has cleared, a write is acknowledged *)
+Theorem fault_then_write_acknowledged s o s' k ts meta msize dlen dseed :
+  BlobsOk K s -> ActiveInMemory s -> s_open s = true -> fault_outcomes K cfg s o s' ->
+  snd (step K cfg s' (OWrite k ts meta msize dlen dseed)) = RUnit.
+Proof.
+  intros HB HA Ho H. destruct (fault_later_ops s o s' HB Ho H) as (C & _ & _ & F).
+  rewrite (step_open K cfg s' _ F). apply do_write_ack, C, HA.
+Qed.
+
+(* ---------- TASK 3 (i): a call that returned an error left no trace ---------- *)
+Lemma F2_quiet_recs l l' : Forall2 quiet l l' -> flat_map b_recs l' = flat_map b_recs l.
+Proof.
+  induction 1 as [|b b' l l' Hb HF IH]; [reflexivity|]. cbn [flat_map]. rewrite IH, (proj1 (proj2 Hb)). reflexivity.
+Qed.
+
+Lemma shape_quiet_same s s' :
+  shape quiet s s' -> abs s' = abs s /\ forall k meta, get_latest_entry s' k meta = get_latest_entry s k meta.
+Proof.
+  intros H. split; [apply F2_quiet_recs, shape_bio, H|].
+  intros k. apply (proj1 (safe_quiet s s' H) k I).
+Qed.
+
+Lemma fault_error_no_trace_gen s o s' :
+  fault_error K s o s' -> (o = ORestoreActive -> BlobsOk K s) ->
+  abs s' = abs s /\ forall k meta, get_latest_entry s' k meta = get_latest_entry s k meta.
+Proof.
+  intros H. destruct H as [k ts meta msize dlen dseed Ho Hn|k ts meta msize dlen dseed Ho
+                          |k ts meta msize oip Ho Hoip Hn|k ts meta msize oip Ho| | |Ho Hn|Ho Hn|ro Hr]; intros HB.
+  - split; [reflexivity|intros k' meta'; reflexivity].
+  - split; [apply abs_ensure_active|]. intros k'. apply (keeps_ensure_active k' s).
+  - split; [reflexivity|intros k' meta'; reflexivity].
+  - split; [|intros k'; apply (keeps_delete_start k' s oip)].
+    unfold append_fails, delete_start. destruct oip; [reflexivity|apply abs_ensure_active].
+  - split; [reflexivity|intros k' meta'; reflexivity].
+  - split; [reflexivity|intros k' meta'; reflexivity].
+  - apply shape_quiet_same, (restore_partial_quiet K); [apply HB; reflexivity|apply rp_loaded, Hn].
+  - split; [reflexivity|intros k' meta'; reflexivity].
+  - split; [reflexivity|intros k' meta'; reflexivity].
+Qed.
+
+(* whatever the operation: the log and every read are as before the call *)
+Theorem fault_error_leaves_no_trace s o s' :
+  BlobsOk K s -> fault_error K s o s' ->
+  abs s' = abs s /\ forall k meta, get_latest_entry s' k meta = get_latest_entry s k meta.
+Proof. intros HB H. apply (fault_error_no_trace_gen s o s' H). intros _. exact HB. Qed.
+
+(* the failed WRITE: no record bytes in the log, the index untouched: every read, of the write's own key too,
+   answers as before -- in every state *)
+Theorem failed_write_leaves_no_trace s k ts meta msize dlen dseed s' :
+  fault_error K s (OWrite k ts meta msize dlen dseed) s' ->
+  abs s' = abs s /\ forall k' meta', get_latest_entry s' k' meta' = get_latest_entry s k' meta'.
+Proof. intros H. apply (fault_error_no_trace_gen s _ s' H). intros E. discriminate E. Qed.
+
+(* hence the specification's read of the log is the one before the call *)
+Corollary failed_write_not_served s k ts meta msize dlen dseed s' k' :
+  fault_error K s (OWrite k ts meta msize dlen dseed) s' -> spec_read (abs s') k' = spec_read (abs s) k'.
+Proof. intros H. rewrite (proj1 (failed_write_leaves_no_trace _ _ _ _ _ _ _ _ H)). reflexivity. Qed.
+
+(* ---------- TASK 3 (ii): the partially failed delete, blob by blob ---------- *)
+Lemma closed_request_dump s : s_closed (request_dump s) = s_closed s.
+Proof. unfold request_dump. destruct (s_alive s); reflexivity. Qed.
+
+Lemma active_request_dump s : s_active (request_dump s) = s_active s.
+Proof. unfold request_dump. destruct (s_alive s); reflexivity. Qed.
+
+Lemma upto_dump_blobs s1 s' : upto_dump_request s1 s' -> s_closed s' = s_closed s1 /\ s_active s' = s_active s1.
+Proof. intros [-> | ->]; [split; reflexivity|split; [apply closed_request_dump|apply active_request_dump]]. Qed.
+
+(* every closed blob got its marker AND indexed it (or does not hold the key: then Blob::delete leaves it alone),
+   or it is the blob it was with its index loaded; the active blob is fully processed *)
+Theorem failed_delete_markers s k ts meta msize oip fails :
+  let mk := mk_rec k ts true meta msize 0 0 in
+  let s' := delete_faulty K s mk oip fails in
+  Forall2 (orel (marked_or_loaded mk)) (s_closed (delete_start s oip)) (s_closed s') /\
+  s_active s' = option_map (fun b => fst (fst (blob_delete K b mk oip))) (s_active (delete_start s oip)).
+Proof.
+  intros mk s'. destruct (upto_dump_blobs _ _ (delete_faulty_upto s mk oip fails)) as [Ec Ea].
+  fold s' in Ec, Ea. rewrite Ec, Ea. unfold delete_faulty_blobs. cbn [upd_closed s_closed s_active].
+  split; [apply faulty_slots_exact|].
+  unfold delete_active_done. destruct (s_active (delete_start s oip)) as [a|] eqn:EA; [reflexivity|exact EA].
+Qed.
+
+(* sanity of the model: when no marker append fails the blobs are those of the completed delete *)
+Lemma faulty_none_slots l mk :
+  fst (delete_in_closed_faulty K l mk []) = map (option_map (fun b => fst (fst (blob_delete K b mk true)))) l.
+Proof.
+  induction l as [|[b|] l IH]; cbn [delete_in_closed_faulty map option_map tl hd]; [reflexivity| |].
+  - destruct (delete_in_closed_faulty K l mk []) as [r' n]. cbn [fst] in IH. subst r'.
+    rewrite (blob_delete_stage K b mk true). destruct (delete_applies b mk true); reflexivity.
+  - destruct (delete_in_closed_faulty K l mk []) as [r' n]. cbn [fst] in IH. subst r'. reflexivity.
+Qed.
+
+Theorem delete_faulty_no_failure s k ts meta msize oip :
+  let s' := delete_faulty K s (mk_rec k ts true meta msize 0 0) oip [] in
+  s_closed s' = s_closed (fst (do_delete K s k ts meta msize oip)) /\
+  s_active s' = s_active (fst (do_delete K s k ts meta msize oip)).
+Proof.
+  intros s'. destruct (do_delete_slots K s k ts meta msize oip) as [Ec Ea]. rewrite Ec, Ea.
+  destruct (failed_delete_markers s k ts meta msize oip []) as [_ Ha]. split; [|exact Ha].
+  destruct (upto_dump_blobs _ _ (delete_faulty_upto s (mk_rec k ts true meta msize 0 0) oip [])) as [Ec' _].
+  unfold s'. rewrite Ec'. unfold delete_faulty_blobs. cbn [upd_closed s_closed]. apply faulty_none_slots.
+Qed.
+
+(* the log: the old blobs, each one with or without ONE marker at its end (for every fault outcome of a delete) *)
+Theorem failed_delete_log s k ts meta msize oip s' :
+  BlobsOk K s -> s_open s = true -> fault_outcomes K cfg s (ODelete k ts meta msize oip) s' ->
+  exists s0, (s0 = s \/ (oip = false /\ s0 = ensure_active s)) /\
+    Forall2 (orel (marker_ext (mk_rec k ts true meta msize 0 0) true)) (s_closed s0) (s_closed s') /\
+    orel (marker_ext (mk_rec k ts true meta msize 0 0) oip) (s_active s0) (s_active s').
+Proof.
+  intros HB Ho H. destruct (fault_outcomes_are_cancel_outcomes s _ s' H) as (s1 & Hc & Hu).
+  destruct (upto_dump_blobs _ _ Hu) as [Ec Ea]. rewrite Ec, Ea.
+  apply (cancelled_delete_log K cfg); assumption.
+Qed.
+
+(* the read of the key: as before the delete, or as after the completed delete *)
+Theorem failed_delete_read s k ts meta msize oip s' :
+  BlobsOk K s -> s_open s = true -> fault_outcomes K cfg s (ODelete k ts meta msize oip) s' ->
+  forall meta',
+    get_latest_entry s' k meta' = get_latest_entry s k meta' \/
+    get_latest_entry s' k meta' = get_latest_entry (fst (step K cfg s (ODelete k ts meta msize oip))) k meta'.
+Proof.
+  intros HB Ho H meta'. destruct (fault_outcomes_are_cancel_outcomes s _ s' H) as (s1 & Hc & Hu).
+  assert (E : get_latest_entry s' k meta' = get_latest_entry s1 k meta').
+  { destruct Hu as [-> | ->]; [reflexivity|apply (keeps_request_dump k s1)]. }
+  rewrite E. apply (cancelled_delete_read K cfg); assumption.
+Qed.
+
+(* ---------- TASK 3 (iii): the invariant of C03 is kept (a cancellation may break idx_ok: ds_bytes, wp_bytes) ---------- *)
+Lemma blob_delete_fst_ok b mk oip : blob_ok K b -> blob_ok K (fst (fst (blob_delete K b mk oip))).
+Proof.
+  intros Hb. destruct (blob_delete K b mk oip) as [[b' d] ok] eqn:B.
+  destruct (blob_delete_spec K _ _ _ _ _ _ B) as (_ & _ & H). apply H, Hb.
+Qed.
+
+Lemma F2_closed_ok (R : blob -> blob -> Prop) l l' :
+  (forall b b', R b b' -> blob_ok K b -> blob_ok K b') -> Forall2 (orel R) l l' ->
+  (forall b, In (Some b) l -> blob_ok K b) -> forall b', In (Some b') l' -> blob_ok K b'.
+Proof.
+  intros HR HF. induction HF as [|o o' l l' Ho HF IH]; intros Hl b' Hin; [destruct Hin|].
+  destruct Hin as [E|Hin].
+  - subst o'. inversion Ho as [|b b0 Hb Eb E0]. subst. apply (HR b b' Hb). apply Hl. left. reflexivity.
+  - apply IH; [|exact Hin]. intros b Hb. apply Hl. right. exact Hb.
+Qed.
+
+Lemma marked_or_loaded_ok mk b b' : marked_or_loaded mk b b' -> blob_ok K b -> blob_ok K b'.
+Proof. intros [-> | [_ ->]] Hb; [apply blob_delete_fst_ok, Hb|apply blob_load_index_ok, Hb]. Qed.
+
+Lemma BlobsOk_delete_faulty s mk oip fails : BlobsOk K s -> BlobsOk K (delete_faulty K s mk oip fails).
+Proof.
+  intros HB. pose proof (BlobsOk_delete_start K s oip HB) as H0.
+  assert (H1 : BlobsOk K (delete_faulty_blobs K s mk oip fails)).
+  { unfold delete_faulty_blobs. apply BlobsOk_upd_closed.
+    - unfold delete_active_done. destruct (s_active (delete_start s oip)) as [a|] eqn:EA; [|exact H0].
+      apply BlobsOk_upd_active; [exact H0|]. intros b E. injection E as <-. apply blob_delete_fst_ok, (proj2 H0), EA.
+    - apply (F2_closed_ok (marked_or_loaded mk) (s_closed (delete_start s oip)));
+        [apply marked_or_loaded_ok|apply faulty_slots_exact|apply (proj1 H0)]. }
+  unfold delete_faulty. destruct (0 <? delete_faulty_marked K s mk oip fails); [apply BlobsOk_request_dump, H1|exact H1].
+Qed.
+
+(* a completed write keeps BlobsOk when the active index is in memory (InvProofs.do_write_BlobsOk asks for the
+   ghost flag instead) *)
+Lemma do_write_BlobsOk_mem s k ts meta msize dlen dseed :
+  BlobsOk K s -> ActiveInMemory s -> BlobsOk K (fst (do_write K cfg s k ts meta msize dlen dseed)).
+Proof.
+  intros HB HA. unfold do_write. pose proof (BlobsOk_ensure_active K s HB) as H1.
+  pose proof (aim_ensure_active s HA) as HA1.
+  set (s1 := ensure_active s) in *. clearbody s1.
+  destruct (negb (c_dup cfg) && is_found (get_latest_entry s1 k meta)); cbn [fst]; [exact H1|].
+  destruct (s_active s1) as [a|] eqn:EA; cbn [fst]; [|exact H1].
+  pose proof (blob_append_mem a (mk_rec k ts false meta msize dlen dseed) (HA1 a EA)) as Hok.
+  destruct (blob_append a (mk_rec k ts false meta msize dlen dseed)) as [b' ok] eqn:A.
+  cbn [snd] in Hok. subst ok. cbn [fst].
+  apply BlobsOk_maybe_rotate. apply BlobsOk_upd_active; [exact H1|].
+  intros b Hb. injection Hb as <-. apply (blob_append_ok K a _ b' (proj2 H1 a EA) A).
+Qed.
+
+Lemma public_step_BlobsOk s o :
+  public_op o = true -> BlobsOk K s -> ActiveInMemory s -> BlobsOk K (fst (step K cfg s o)).
+Proof.
+  intros Hp HB HA. unfold step. destruct (needs_open o && negb (s_open s)); [exact HB|].
+  destruct o; try discriminate Hp; try exact HB.
+  - apply do_write_BlobsOk_mem; assumption.
+  - apply do_delete_BlobsOk, HB.
+  - pose proof (BlobsOk_close_active K s HB) as H1. destruct (close_active s) as [s' e].
+    cbn [fst] in *. apply BlobsOk_request_dump, H1.
+  - pose proof (BlobsOk_create_active K s HB) as H1. destruct (create_active s) as [s' e]. exact H1.
+  - pose proof (BlobsOk_restore_active K s HB) as H1. destruct (restore_active K s) as [s' e]. exact H1.
+Qed.
+
+Lemma BlobsOk_burn_id s : BlobsOk K s -> BlobsOk K (burn_id s).
+Proof. apply BlobsOk_ext; reflexivity. Qed.
+
+Lemma fault_error_BlobsOk s o s' : BlobsOk K s -> fault_error K s o s' -> BlobsOk K s'.
+Proof.
+  intros HB H. destruct H as [k ts meta msize dlen dseed Ho Hn|k ts meta msize dlen dseed Ho
+                             |k ts meta msize oip Ho Hoip Hn|k ts meta msize oip Ho| | |Ho Hn|Ho Hn|ro Hr].
+  - apply BlobsOk_burn_id, HB.
+  - apply BlobsOk_ensure_active, HB.
+  - apply BlobsOk_burn_id, HB.
+  - apply (BlobsOk_delete_start K), HB.
+  - exact HB.
+  - exact HB.
+  - apply BlobsOk_upd_closed; [exact HB|].
+    apply (F2_closed_ok (fun b b' => blob_ok K b -> blob_ok K b') (s_closed s)); [auto| |apply (proj1 HB)].
+    apply mlo_F2; [auto|]. intros b _. apply blob_load_index_ok.
+  - apply BlobsOk_burn_id, HB.
+  - exact HB.
+Qed.
+
+(* in every fault outcome every blob's index is the index of its records (no blob is left with bytes that are not
+   indexed), and every index file describes a prefix of its blob *)
+Theorem fault_keeps_BlobsOk s o s' :
+  BlobsOk K s -> ActiveInMemory s -> fault_outcomes K cfg s o s' -> BlobsOk K s'.
+Proof.
+  intros HB HA [H|H]; [apply (fault_error_BlobsOk s o s' HB H)|].
+  destruct H as [o Hp|k ts meta msize oip fails Ho].
+  - apply public_step_BlobsOk; assumption.
+  - apply BlobsOk_delete_faulty, HB.
+Qed.
+
+(* for a delete (failed, partially failed, or completed) the active blob need not be in memory *)
+Theorem failed_delete_keeps_BlobsOk s k ts meta msize oip s' :
+  BlobsOk K s -> fault_outcomes K cfg s (ODelete k ts meta msize oip) s' -> BlobsOk K s'.
+Proof.
+  intros HB [H|H]; [apply (fault_error_BlobsOk s _ s' HB H)|].
+  inversion H as [o Hp Eo Es|k0 ts0 meta0 msize0 oip0 fails Ho Eo Es].
+  - unfold step. destruct (needs_open (ODelete k ts meta msize oip) && negb (s_open s)); [exact HB|].
+    apply do_delete_BlobsOk, HB.
+  - apply BlobsOk_delete_faulty, HB.
+Qed.
+
+(* the whole invariant, and the premise of "no index error" *)
+Theorem fault_keeps_Inv s o s' :
+  Inv K s -> ActiveInMemory s -> s_open s = true -> fault_outcomes K cfg s o s' -> Inv K s' /\ ActiveInMemory s'.
+Proof.
+  intros (HB & HI & _) HA Ho H. destruct (fault_later_ops s o s' HB Ho H) as (C & _ & E & F).
+  split; [|apply C, HA]. split; [apply (fault_keeps_BlobsOk s o s'); assumption|].
+  split; [apply E, HI|]. intros Hc. rewrite F in Hc. discriminate Hc.
+Qed.
+
+(* ---------- after every history ---------- *)
+Theorem reach_fault_containment ops o s' :
+  s_open (reach K cfg ops) = true -> fault_outcomes K cfg (reach K cfg ops) o s' ->
+  (forall k, op_key o <> Some k ->
+     of_key k (abs s') = of_key k (abs (reach K cfg ops)) /\
+     forall meta, get_latest_entry s' k meta = get_latest_entry (reach K cfg ops) k meta) /\
+  good (reach K cfg ops) s' /\
+  Inv K s' /\ ActiveInMemory s' /\ s_alive s' = s_alive (reach K cfg ops) /\ s_open s' = true /\
+  forall k ts meta msize dlen dseed, snd (step K cfg s' (OWrite k ts meta msize dlen dseed)) = RUnit.
+Proof.
+  intros Ho H. pose proof (reach_Inv K cfg ops) as HI. pose proof (reach_ActiveInMemory K cfg ops) as HA.
+  pose proof (proj1 HI) as HB.
+  split; [intros k Hk; apply (fault_other_keys (reach K cfg ops) o s' k); assumption|].
+  split; [apply (fault_no_harm (reach K cfg ops) o s'); assumption|].
+  destruct (fault_keeps_Inv _ o s' HI HA Ho H) as [HI' HA'].
+  destruct (fault_later_ops _ o s' HB Ho H) as (_ & D & _ & F).
+  split; [exact HI'|]. split; [exact HA'|]. split; [exact D|]. split; [exact F|].
+  intros k ts meta msize dlen dseed. apply (fault_then_write_acknowledged (reach K cfg ops) o s'); assumption.
+Qed.
+
+End FaultOutcomes.
+
+(* ---------- the background faults, together ---------- *)
+Theorem bg_fault_contained K s s' :
+  bg_fault_outcomes s s' ->
+  abs s' = abs s /\ (forall k meta, get_latest_entry s' k meta = get_latest_entry s k meta) /\
+  s_alive s' = s_alive s /\ s_open s' = s_open s /\ (Inv K s -> Inv K s') /\ (ActiveInMemory s -> ActiveInMemory s').
+Proof.
+  intros [id| |].
+  - rewrite dump_fails_on_id. split; [reflexivity|]. split; [intros k meta; reflexivity|]. split; [reflexivity|].
+    split; [reflexivity|]. split; intros HX; exact HX.
+  - split; [reflexivity|]. split; [intros k meta; reflexivity|]. split; [reflexivity|]. split; [reflexivity|].
+    split; [apply rotation_failure_Inv|]. intros HA. exact HA.
+  - split; [reflexivity|]. split; [intros k meta; reflexivity|]. split; [reflexivity|].
+    split; [reflexivity|]. split; intros HX; exact HX.
+Qed.
+
+(* ---------- why "possibly followed by the dump request": the literal inclusion is false ---------- *)
+Lemma dump_req_ensure_active s : s_dump_req (ensure_active s) = s_dump_req s.
+Proof. unfold ensure_active. destruct (s_active s); reflexivity. Qed.
+
+Lemma dump_req_delete_start s oip : s_dump_req (delete_start s oip) = s_dump_req s.
+Proof. destruct oip; [reflexivity|apply dump_req_ensure_active]. Qed.
+
+(* a dropped delete never requests the dump: the request follows the loop over the closed blobs *)
+Lemma delete_partial_dump_req K s mk oip s' : delete_partial K s mk oip s' -> s_dump_req s' = s_dump_req s.
+Proof.
+  intros [Hoip Hn| |b b' Ea Happ Hst|c' HF].
+  - reflexivity.
+  - apply dump_req_delete_start.
+  - cbn [upd_active s_dump_req]. apply dump_req_delete_start.
+  - cbn [upd_closed s_dump_req]. unfold delete_active_done.
+    destruct (s_active (delete_start s oip)); cbn [upd_active s_dump_req]; apply dump_req_delete_start.
+Qed.
+
+(* ================= computed: a delete over two closed blobs, the marker append fails in one ================= *)
+
+(* blob 0 (closed, index on disk) holds key 1 (timestamp 7) and key 2, blob 1 (closed, index on disk) holds key 1
+   (timestamp 8); no active blob. delete(key 1, timestamp 9, only_if_presented); the marker append fails in blob 0 *)
+Definition fd_state : storage :=
+  reach 4 f_cfg [OOpen false; OWrite 1 7 None 8 5 1; OWrite 2 7 None 8 5 2; OCloseActive; OCreateActive;
+                 OWrite 1 8 None 8 5 3; OCloseActive].
+Definition fd_op : op := ODelete 1 9 None 8 true.
+Definition fd_mk : rec := mk_rec 1 9 true None 8 0 0.
+Definition fd_out : storage := delete_faulty 4 fd_state fd_mk true [true; false].
+
+Lemma fd_out_is_fault_outcome : fault_outcomes 4 f_cfg fd_state fd_op fd_out.
+Proof. right. apply (fl_delete_closed 4 f_cfg fd_state 1 9 None 8 true [true; false]). vm_compute. reflexivity. Qed.
+
+(* blob 0: index loaded, no marker; blob 1: marker appended and indexed; the call answers Ok(1); the dump of the
+   indexes is requested *)
+Lemma fd_out_blobs :
+  s_closed fd_out =
+    match s_closed fd_state with
+    | [Some b0; Some b1] => [Some (blob_load_index 4 b0); Some (fst (blob_append (blob_load_index 4 b1) fd_mk))]
+    | l => l
+    end /\
+  map (fun b => length (b_recs b)) (blobs_in_order fd_state) = [2; 1]%nat /\
+  map (fun b => length (b_recs b)) (blobs_in_order fd_out) = [2; 2]%nat /\
+  map (fun b => length (b_recs b)) (blobs_in_order (fst (step 4 f_cfg fd_state fd_op))) = [3; 2]%nat /\
+  delete_faulty_answer 4 fd_state fd_mk true [true; false] = RNum 1 /\
+  snd (step 4 f_cfg fd_state fd_op) = RNum 2 /\
+  s_dump_req fd_state = false /\ s_dump_req fd_out = true /\
+  delete_faulty 4 fd_state fd_mk true [] = fst (step 4 f_cfg fd_state fd_op).   (* no failure: the completed delete *)
+Proof. vm_compute. repeat split; reflexivity. Qed.
+
+(* the key of the call reads as AFTER the completed delete (the newer blob got its marker), not as before;
+   the other key is unchanged; the state satisfies the invariant and the next write is acknowledged *)
+Lemma fd_out_reads :
+  get_latest_entry fd_state 1 None = Found (mk_rec 1 8 false None 8 5 3) /\
+  get_latest_entry fd_out 1 None = Deleted 9 /\
+  get_latest_entry (fst (step 4 f_cfg fd_state fd_op)) 1 None = Deleted 9 /\
+  get_latest_entry fd_out 2 None = Found (mk_rec 2 7 false None 8 5 2) /\
+  get_latest_entry fd_state 2 None = Found (mk_rec 2 7 false None 8 5 2) /\
+  of_key 2 (abs fd_out) = of_key 2 (abs fd_state) /\
+  get_latest_entry fd_out 1 None = spec_read (abs fd_out) 1 /\
+  snd (step 4 f_cfg fd_out (OWrite 3 7 None 8 5 4)) = RUnit.
+Proof. vm_compute. repeat split; reflexivity. Qed.
+
+Lemma fd_out_invariant : Inv 4 fd_out /\ ActiveInMemory fd_out.
+Proof.
+  apply (fault_keeps_Inv 4 f_cfg fd_state fd_op fd_out);
+    [apply reach_Inv|apply reach_ActiveInMemory|vm_compute; reflexivity|apply fd_out_is_fault_outcome].
+Qed.
+
+(* fd_out is NOT literally a cancel outcome of the delete: a dropped delete has not requested the dump *)
+Lemma fd_out_is_not_a_cancel_outcome : ~ cancel_outcomes 4 f_cfg fd_state fd_op fd_out.
+Proof.
+  intros [_ [E|[E|[_ Hp]]]].
+  - assert (E2 := f_equal s_dump_req E). vm_compute in E2. discriminate E2.
+  - assert (E2 := f_equal (fun s => length (abs s)) E). vm_compute in E2. discriminate E2.
+  - cbn [partial_outcomes] in Hp. apply delete_partial_dump_req in Hp. vm_compute in Hp. discriminate Hp.
+Qed.
+
+(* the corner the theorem `failed_delete_read` leaves open, computed (state and delete of CancelProofs.d_state:
+   key 1 at timestamps 7 and 8 in two closed blobs, delete at timestamp 8): the marker append fails in the NEWER
+   blob. The call answers Ok(1), the marker is in the log, and the key still reads as BEFORE the delete (the
+   newer blob answers Found 8; the marker of the older blob has an equal timestamp and does not replace it) *)
+Definition fd2_out : storage := delete_faulty 4 d_state d_mk true [false; true].
+
+Lemma fd2_out_is_fault_outcome : fault_outcomes 4 c_cfg d_state d_op fd2_out.
+Proof. right. apply (fl_delete_closed 4 c_cfg d_state 1 8 None 8 true [false; true]). vm_compute. reflexivity. Qed.
+
+Lemma fd2_out_reads :
+  delete_faulty_answer 4 d_state d_mk true [false; true] = RNum 1 /\
+  In d_mk (abs fd2_out) /\
+  get_latest_entry d_state 1 None = Found (mk_rec 1 8 false None 8 5 2) /\
+  get_latest_entry fd2_out 1 None = Found (mk_rec 1 8 false None 8 5 2) /\
+  get_latest_entry (fst (step 4 c_cfg d_state d_op)) 1 None = Deleted 8.
+Proof. split; [vm_compute; reflexivity|]. split; [vm_compute; auto|]. vm_compute. repeat split; reflexivity. Qed.
+
+Print Assumptions fault_outcomes_are_cancel_outcomes.
+Print Assumptions fault_outcomes_are_cancel_outcomes_strict.
+Print Assumptions fault_error_is_cancel_outcome.
+Print Assumptions failed_delete_is_cancel_outcome.
+Print Assumptions fault_other_keys.
+Print Assumptions fault_no_harm.
+Print Assumptions fault_later_ops.
+Print Assumptions fault_then_no_index_error.
+Print Assumptions fault_then_write_acknowledged.
+Print Assumptions fault_error_leaves_no_trace.
+Print Assumptions failed_write_leaves_no_trace.
+Print Assumptions failed_write_not_served.
+Print Assumptions failed_delete_markers.
+Print Assumptions delete_faulty_no_failure.
+Print Assumptions failed_delete_log.
+Print Assumptions failed_delete_read.
+Print Assumptions fault_keeps_BlobsOk.
+Print Assumptions failed_delete_keeps_BlobsOk.
+Print Assumptions fault_keeps_Inv.
+Print Assumptions reach_fault_containment.
+Print Assumptions bg_fault_contained.
+Print Assumptions fd_out_is_fault_outcome.
+Print Assumptions fd_out_blobs.
+Print Assumptions fd_out_reads.
+Print Assumptions fd_out_invariant.
+Print Assumptions fd_out_is_not_a_cancel_outcome.
+Print Assumptions fd2_out_is_fault_outcome.
+Print Assumptions fd2_out_reads.
